@@ -2024,6 +2024,272 @@ func (d *driver) rekeyed(n int) {
 	d.monIssuersAll(e)
 }
 
+// ---- evict scenario (C17 at the HTTP surface): what an evicted / rate-limited submitter is told --
+//
+// A log with a bounded pool (PoolSize 1 and 2), rounds started by hand. A LOW-priority submission
+// (final certificate with embedded SCTs, or precertificate with NotBefore 49h ago) is kept in
+// flight in a full pool; a HIGH-priority submission arrives before any round: the low-priority
+// request must complete NOW with 503 + Retry-After and no SCT (mon_evicted), also when its chain
+// is resubmitted while that pool is still pending; with the pool full of high-priority entries a
+// low-priority and a high-priority submission both get 503 + Retry-After at once
+// (mon_ratelimited); after the round the evicted chain's entry is not in the tree, the
+// high-priority ones are, and the evicted chain is accepted when resubmitted. With two
+// low-priority entries pending exactly one is evicted. Every request is also a submit line with
+// wait = evicted / full / ok, replayed by Submit/Model.v respond (WEvicted, WPoolFull: 503).
+
+func (e *logEnv) entryInTree(c *subCase) (bool, error) {
+	size := e.treeSize()
+	for i := int64(0); i < size; i++ {
+		le, err := e.readLeaf(i)
+		if err != nil {
+			return false, err
+		}
+		if bytes.Equal(le.Certificate, c.full[0]) || bytes.Equal(le.PreCertificate, c.full[0]) {
+			return true, nil
+		}
+	}
+	return false, nil
+}
+
+// retryLater: the answer of a refused-for-now submission: 503, Retry-After, no SCT in the body
+func retryLater(r response) string {
+	var acr ct.AddChainResponse
+	switch {
+	case r.code != 503:
+		return fmt.Sprintf("answered %d (%s), not 503 Service Unavailable", r.code, strings.TrimSpace(string(r.body)))
+	case r.hdr.Get("Retry-After") == "":
+		return "answered 503 without a Retry-After header"
+	case json.Unmarshal(r.body, &acr) == nil && len(acr.Signature) > 0:
+		return "answered 503 with an SCT in the body"
+	}
+	if ra, err := strconv.Atoi(r.hdr.Get("Retry-After")); err != nil || ra <= 0 {
+		return "Retry-After is not a positive number of seconds: " + r.hdr.Get("Retry-After")
+	}
+	return ""
+}
+
+func (d *driver) evict() {
+	for _, poolSize := range []int{1, 2, 2} {
+		d.evictRun(poolSize, d.stats["evict:runs"])
+		d.stats["evict:runs"]++
+	}
+}
+
+func (d *driver) evictRun(poolSize, variant int) {
+	be := newMemBackend()
+	e := d.newLog(fmt.Sprintf("evict-pool%d-%d", poolSize, variant), poolSize, be, newMemLock(), true)
+	defer e.log.CloseCache()
+	if err := e.log.SetRootsFromPEM(context.Background(), pemOf(d.A.der)); err != nil {
+		abort("evict: SetRootsFromPEM failed: %v", err)
+	}
+	e.rootsDER = [][]byte{d.A.der}
+	twoLow := variant == 2 // PoolSize 2 with two low-priority entries pending: exactly one is evicted
+	tag := fmt.Sprintf("evict:pool%d", poolSize)
+	if twoLow {
+		tag += ",two-low"
+	}
+	lowSpec := func(k int) spec {
+		if (k+variant)%2 == 0 {
+			return spec{issuer: d.A1, naPos: 2, ep: "chain", includeRoot: true, sct: true} // embedded SCTs
+		}
+		return spec{issuer: d.PA1, poison: 1, naPos: 2, ep: "prechain", includeRoot: k%2 == 0, oldBefore: true} // NotBefore 49h ago
+	}
+	highSpec := func(k int) spec {
+		if (k+variant)%2 == 0 {
+			return spec{issuer: d.A1, naPos: 2, ep: "chain", includeRoot: k%2 == 0}
+		}
+		return spec{issuer: d.A, poison: 1, naPos: 2, ep: "prechain", includeRoot: true, nearOld: true} // 47h: still high
+	}
+	mkc := func(s spec, name string) *subCase {
+		c := d.build(e, s)
+		if c == nil || c.full == nil {
+			fatal("evict: no case")
+		}
+		c.desc = tag + "," + name
+		return c
+	}
+	round := func() {
+		time.Sleep(3 * time.Millisecond)
+		if err := e.log.VerifSequence(context.Background()); err != nil {
+			abort("evict: sequencing failed: %v", err)
+		}
+	}
+	poolIs := func(n int, when string) {
+		if got := e.log.VerifPoolLen(); got != n {
+			abort("evict: pool length %d %s, expected %d", got, when, n)
+		}
+	}
+	answered := func(p *pendingReq) bool {
+		select {
+		case r := <-p.ch:
+			p.ch <- r
+			return true
+		default:
+			return false
+		}
+	}
+	within := func(p *pendingReq, ms int) bool { // answered within ms milliseconds
+		dl := time.Now().Add(time.Duration(ms) * time.Millisecond)
+		for !answered(p) {
+			if time.Now().After(dl) {
+				return false
+			}
+			time.Sleep(200 * time.Microsecond)
+		}
+		return true
+	}
+	var refused []struct {
+		p    *pendingReq
+		op   string
+		what string
+		res  string
+	}
+	// a refused-for-now request: judged now (status, header, body) and after the round (entry absent)
+	refuse := func(p *pendingReq, op, wait, what string) {
+		res := "holds"
+		if !within(p, 5000) {
+			res = "FAILS:" + what + ": the request is not answered before the next round (it still waits for its leaf)"
+			d.stats["evict:unanswered"]++
+		} else {
+			d.awaitPending(p)
+			if why := retryLater(p.rsp); why != "" {
+				res = "FAILS:" + what + ": " + why
+			}
+			p.c.wait = wait
+			d.reportPending(e, p)
+		}
+		refused = append(refused, struct {
+			p    *pendingReq
+			op   string
+			what string
+			res  string
+		}{p, op, what, res})
+	}
+
+	// fill the pool: (poolSize-1) pending entries, then the low-priority one (a)
+	var waiting []*pendingReq
+	var lows []*pendingReq
+	if poolSize == 2 {
+		c := mkc(highSpec(0), "filler-high")
+		if twoLow {
+			c = mkc(lowSpec(1), "low-in-flight-2")
+		}
+		q := d.startPending(e, c)
+		if twoLow {
+			lows = append(lows, q)
+		} else {
+			waiting = append(waiting, q)
+		}
+	}
+	lows = append(lows, d.startPending(e, mkc(lowSpec(0), "low-in-flight")))
+	poolIs(poolSize, "after filling the pool")
+	for _, q := range lows {
+		if answered(q) {
+			abort("evict: the low-priority submission %s was answered before anything else arrived", q.c.desc)
+		}
+	}
+	// (c') the pool is full and holds a low-priority entry: another LOW-priority one is refused at once
+	refuse(d.startPending(e, mkc(lowSpec(3), "low-while-full")), "mon_ratelimited", "full", "low-priority submission to a full pool")
+	// (b) a HIGH-priority submission before any round: evicts exactly one pending low-priority entry
+	hi := d.startPending(e, mkc(highSpec(1), "high-evicts"))
+	waiting = append(waiting, hi)
+	if answered(hi) {
+		abort("evict: the high-priority submission that should evict was answered at once")
+	}
+	poolIs(poolSize, "after the eviction")
+	var victim *pendingReq
+	dl := time.Now().Add(5 * time.Second)
+	for victim == nil && time.Now().Before(dl) {
+		for _, q := range lows {
+			if answered(q) {
+				victim = q
+			}
+		}
+		time.Sleep(200 * time.Microsecond)
+	}
+	if victim == nil {
+		victim = lows[len(lows)-1]
+	}
+	refuse(victim, "mon_evicted", "evicted", "low-priority submission evicted by a high-priority one")
+	nEvicted := 0
+	for _, q := range lows {
+		if q != victim {
+			if answered(q) {
+				nEvicted++
+			}
+			waiting = append(waiting, q)
+		}
+	}
+	// (d) the evicted chain again while that pool is still pending
+	dup := *victim.c
+	dup.desc = victim.c.desc + ",resubmitted-while-pending"
+	refuse(d.startPending(e, &dup), "mon_evicted", "evicted", "resubmission of the evicted chain while its pool is still pending")
+	if twoLow { // one low-priority entry is left: one more high-priority submission evicts it too
+		hi2 := d.startPending(e, mkc(highSpec(2), "high-evicts-2"))
+		waiting2 := waiting[:0:0]
+		for _, q := range waiting {
+			if q.c.expectLow == 1 {
+				refuse(q, "mon_evicted", "evicted", "second low-priority submission evicted by a second high-priority one")
+			} else {
+				waiting2 = append(waiting2, q)
+			}
+		}
+		waiting = append(waiting2, hi2)
+	}
+	// (c) the pool is full of high-priority entries: low and high are both refused at once
+	poolIs(poolSize, "before the rate-limited submissions")
+	refuse(d.startPending(e, mkc(lowSpec(4), "low-nothing-to-evict")), "mon_ratelimited", "full", "low-priority submission to a pool full of high-priority entries")
+	refuse(d.startPending(e, mkc(highSpec(3), "high-nothing-to-evict")), "mon_ratelimited", "full", "high-priority submission to a pool full of high-priority entries (nothing to evict)")
+	poolIs(poolSize, "after the rate-limited submissions")
+
+	round()
+	for _, q := range waiting {
+		d.awaitPending(q)
+	}
+	e.queueLowLabels(len(waiting))
+	for _, q := range waiting {
+		q.c.wait = "ok"
+		d.reportPending(e, q)
+	}
+	// (e) the refused entries are not in the tree, the others are
+	for _, r := range refused {
+		res := r.res
+		if in, err := e.entryInTree(r.p.c); res == "holds" && (err != nil || in) {
+			res = fmt.Sprintf("FAILS:%s: answered %d, but its entry is in the published tree after the round (err=%v)", r.what, r.p.rsp.code, err)
+		}
+		if res != "holds" {
+			res += ":ep=" + r.p.c.ep + ":chain=" + hxList(r.p.c.full)
+		}
+		d.mon(r.op, d.ncase, r.p.c.desc, res)
+	}
+	res := "holds"
+	for _, q := range waiting {
+		if in, err := e.entryInTree(q.c); q.rsp.code == 200 && (err != nil || !in) {
+			res = fmt.Sprintf("FAILS:%s was answered 200 but its entry is not in the published tree (err=%v)", q.c.desc, err)
+		}
+	}
+	size := e.treeSize()
+	if size != int64(len(e.indexes)) || size != int64(len(waiting)) {
+		res = fmt.Sprintf("FAILS:tree size %d after one round with %d pending entries (%d indexes handed out): a refused submission left a leaf, or a pending one was lost", size, len(waiting), len(e.indexes))
+	}
+	d.stats["mon:mon_noleaf"]++
+	d.emit("mon_noleaf|%s|after-round|%d|=>|%s", e.name, size, res)
+	if twoLow && nEvicted != 0 {
+		d.mon("mon_evicted", d.ncase, tag+",exactly-one", fmt.Sprintf("FAILS:one high-priority submission evicted %d low-priority entries, not exactly one", nEvicted+1))
+	}
+	// retry later works: the evicted chain is accepted now
+	again := *victim.c
+	again.desc = victim.c.desc + ",retried-after-the-round"
+	q := d.startPending(e, &again)
+	if !answered(q) {
+		round()
+	}
+	d.awaitPending(q)
+	q.c.wait = "ok"
+	d.reportPending(e, q)
+	d.monIssuersAll(e)
+}
+
 // monIssuersAll: every fingerprint of every entry of the log names a stored object whose SHA-256
 // it is, and every chain certificate of every submission that was answered 200 (also one that
 // was deduplicated against a leaf created through another chain) is stored at issuer/<sha256>
@@ -2064,7 +2330,11 @@ func (d *driver) monIssuersAll(e *logEnv) {
 func main() {
 	seed := int64(1)
 	n := 150
+	only := "" // -only=evict: run just that scenario (the probe of checks/c09.py evict_probe)
 	for _, a := range os.Args[1:] {
+		if v, ok := strings.CutPrefix(a, "-only="); ok {
+			only = v
+		}
 		if v, ok := strings.CutPrefix(a, "-seed="); ok {
 			seed, _ = strconv.ParseInt(v, 10, 64)
 		}
@@ -2123,6 +2393,27 @@ func main() {
 	d.Q0 = p.newAuthority("root Q0 (poisoned)", nil, caOpts{poison: 1, serverAuth: true, notAfter: inWin})
 	d.R1 = p.newAuthority("root R1 (serverAuth, in window)", nil, caOpts{serverAuth: true, notAfter: inWin})
 	d.issuers = []*authority{d.A, d.A1, d.A2, d.PA, d.PA1, d.PA2, d.B, d.B1, d.PB1, d.C, d.C1, d.PC, d.P0}
+
+	printStats := func() {
+		keys := make([]string, 0, len(d.stats))
+		for k := range d.stats {
+			keys = append(keys, k)
+		}
+		sort.Strings(keys)
+		for _, k := range keys {
+			d.emit("stat|%s|=>|%d", k, d.stats[k])
+		}
+	}
+	if only != "" {
+		switch only {
+		case "evict":
+			d.evict()
+		default:
+			fatal("unknown scenario -only=%s", only)
+		}
+		printStats()
+		return
+	}
 
 	be, lk := newMemBackend(), newMemLock()
 	e := d.newLog("main", 0, be, lk, true)
@@ -2235,13 +2526,6 @@ func main() {
 	d.issuerFaults(n)
 	d.pendingDedup(n)
 	d.rekeyed(n)
-
-	keys := make([]string, 0, len(d.stats))
-	for k := range d.stats {
-		keys = append(keys, k)
-	}
-	sort.Strings(keys)
-	for _, k := range keys {
-		d.emit("stat|%s|=>|%d", k, d.stats[k])
-	}
+	d.evict()
+	printStats()
 }
